@@ -466,7 +466,7 @@ impl<'data> MergedStringsSection<'data> {
             // tasks. This continues until the last inputs and the last buckets have been processed.
             try_spawn_input_processing(&resources, s);
             #[cfg(feature = "verif")]
-            crate::verif::sched::scope_wait();
+            crate::verif::sched::scope_wait("merge");
         });
         #[cfg(feature = "verif")]
         drop(verif_region);
@@ -608,7 +608,7 @@ fn try_spawn_input_processing<'scope>(
         crate::verif::sched::event("reserve_ok", resources.unprocessed.len() as u64, 0, 0);
 
         #[cfg(feature = "verif")]
-        let verif_ticket = crate::verif::sched::ticket("input");
+        let verif_ticket = crate::verif::sched::ticket("merge", "input");
         scope.spawn(|scope| {
             #[cfg(feature = "verif")]
             let _verif_task = crate::verif::sched::task_begin(verif_ticket);
@@ -888,7 +888,7 @@ fn process_input_section_group<'data, 'offsets, 'scope>(
         );
         if let StringsSlot::WaitingForStrings(bucket) = prev_slot {
             #[cfg(feature = "verif")]
-            let verif_ticket = crate::verif::sched::ticket("bucket");
+            let verif_ticket = crate::verif::sched::ticket("merge", "bucket");
             scope.spawn(|scope| {
                 #[cfg(feature = "verif")]
                 let _verif_task = crate::verif::sched::task_begin(verif_ticket);
